@@ -226,48 +226,53 @@ def commentTail (snippet subslice : List Char) (offset : Nat) (st : Status) (v :
       | none => done (v.push .blank ['\n'])
   else done v
 
+/-- The head of `process_comment` (`:237-264`): what is pushed in front of the comment, the
+`comment_indent` and `on_same_line`.  `bigPrefix` is `&big_snippet[..(offset + big_diff)]`. -/
+def commentHead (env : Env) (snippet bigPrefix : List Char) (v : Vis) : Option (Vis × Indent × Bool) :=
+  let lastChar := bigPrefix.reverse.find? (fun c => !isSpaceTab c)
+  let fixIndent := match lastChar with | none => true | some c => c == '{' || c == '\n'
+  if fixIndent then
+    let v1 := if lastChar = some '{' then v.push .blank ['\n'] else v
+    match indentStr? env v1.blockIndent with
+    | none => none
+    | some ind => some (v1.push .blank ind, v1.blockIndent, false)
+  else if env.ed2024 && !(snippet.head? == some '\n') then
+    some (v.push .blank [' '], v.blockIndent, true)
+  else
+    let v1 := v.push .blank [' ']
+    match Indent.from_width env.config (lastLineWidth env v1.buffer) with
+    | .error _ => none
+    | .ok ci => some (v1, ci, false)
+
+/-- The middle of `process_comment` (`:266-300`): the comment itself. -/
+def commentBody (env : Env) (subslice : List Char) (v1 : Vis) (commentIndent : Indent)
+    (onSameLine : Bool) : Option Vis :=
+  let commentWidth := min env.config.comment_width (env.config.max_width - v1.blockIndent.width)
+  let commentShape := Shape.legacy commentWidth commentIndent
+  if onSameLine then
+    match findChar (· == '\n') subslice with
+    | none => some (v1.push .comment subslice)
+    | some off =>
+      if off + 1 = utf8Len subslice then
+        (takeBytes? off subslice).map (v1.push .comment)
+      else
+        match takeBytes? off subslice, indentNl? env commentIndent, dropBytes? (off + 1) subslice with
+        | some firstLine, some nl, some rest =>
+          -- behind a line comment a comment of its own starts: its indentation is dropped
+          let otherLines := if startsWith subslice ['/', '/'] then trimStart rest else rest
+          some (((v1.push .comment firstLine).push .blank nl).push .comment
+            (rcOr env otherLines commentShape))
+        | _, _, _ => none
+  else some (v1.push .comment (rcOr env subslice commentShape))
+
 /-- `process_comment(status, snippet, big_snippet, offset, subslice)`; `bigPrefix` is
 `&big_snippet[..(offset + big_diff)]`. -/
 def processComment (env : Env) (snippet bigPrefix subslice : List Char) (offset : Nat) (st : Status)
     (v : Vis) : Option (Status × Vis) :=
-  let lastChar := bigPrefix.reverse.find? (fun c => !isSpaceTab c)
-  let fixIndent := match lastChar with | none => true | some c => c == '{' || c == '\n'
-  -- (visitor, comment_indent, on_same_line)
-  let head : Option (Vis × Indent × Bool) :=
-    if fixIndent then
-      let v1 := if lastChar = some '{' then v.push .blank ['\n'] else v
-      match indentStr? env v1.blockIndent with
-      | none => none
-      | some ind => some (v1.push .blank ind, v1.blockIndent, false)
-    else if env.ed2024 && !(snippet.head? == some '\n') then
-      some (v.push .blank [' '], v.blockIndent, true)
-    else
-      let v1 := v.push .blank [' ']
-      match Indent.from_width env.config (lastLineWidth env v1.buffer) with
-      | .error _ => none
-      | .ok ci => some (v1, ci, false)
-  match head with
+  match commentHead env snippet bigPrefix v with
   | none => none
   | some (v1, commentIndent, onSameLine) =>
-    let commentWidth := min env.config.comment_width (env.config.max_width - v1.blockIndent.width)
-    let commentShape := Shape.legacy commentWidth commentIndent
-    let body : Option Vis :=
-      if onSameLine then
-        match findChar (· == '\n') subslice with
-        | none => some (v1.push .comment subslice)
-        | some off =>
-          if off + 1 = utf8Len subslice then
-            (takeBytes? off subslice).map (v1.push .comment)
-          else
-            match takeBytes? off subslice, indentNl? env commentIndent, dropBytes? (off + 1) subslice with
-            | some firstLine, some nl, some rest =>
-              -- behind a line comment a comment of its own starts: its indentation is dropped
-              let otherLines := if startsWith subslice ['/', '/'] then trimStart rest else rest
-              some (((v1.push .comment firstLine).push .blank nl).push .comment
-                (rcOr env otherLines commentShape))
-            | _, _, _ => none
-      else some (v1.push .comment (rcOr env subslice commentShape))
-    match body with
+    match commentBody env subslice v1 commentIndent onSameLine with
     | none => none
     | some v2 => commentTail snippet subslice offset st v2
 
